@@ -1,1 +1,231 @@
-/- property theorems for C09 (filled in below) -/
+/-
+C09 — an automaton's three views stay coherent however it was built or edited.
+Property theorems about the model `GT.FSA` (lean/GT/Model/FSA.lean, a literal transcription of
+geometry_tools/automata/fsa.py as repaired) and its specification (lean/GT/Model/FSASpec.lean).
+Helper lemmas live in `GT/Lemmas/FSA*.lean`.
+-/
+import GT.Lemmas.FSAViews
+import GT.Lemmas.FSARec
+import GT.Lemmas.FSARename
+import GT.Lemmas.FSABuild2
+import GT.Lemmas.FSAQuery
+import GT.Properties.C09Parse
+
+set_option linter.unusedSectionVars false
+
+namespace GT.C09
+open GT GT.FSA
+variable {V L : Type} [DecidableEq V] [DecidableEq L]
+
+/-! ## what coherence says about the three views -/
+
+/-- On a coherent automaton the label view (`edges(with_labels=True)`), the outgoing view (all
+`edges_out`) and the incoming view (all `edges_in`) list the same labelled edges, none of them
+lists an edge twice, the label and outgoing views have the same vertex set and the incoming view
+mentions no other vertex. -/
+theorem coherent_views {s : FSA V L} (hs : s.Coherent) :
+    (∀ e, e ∈ s.edgesG ↔ e ∈ s.edgesO) ∧ (∀ e, e ∈ s.edgesG ↔ e ∈ s.edgesI) ∧
+    s.edgesG.Nodup ∧ s.edgesO.Nodup ∧ s.edgesI.Nodup ∧
+    (∀ v, v ∈ s.graph.keys ↔ v ∈ s.vertices) ∧ (∀ v, v ∈ s.inn.keys → v ∈ s.vertices) ∧
+    s.vertices.Nodup ∧
+    (∀ v l w, (v, l, w) ∈ s.edgesG → v ∈ s.vertices ∧ w ∈ s.vertices) := by
+  refine ⟨?_, ?_, nodup_edgesG hs, nodup_edgesO hs, nodup_edgesI hs, hs.verts, hs.innVerts,
+    hs.keys.out, ?_⟩
+  · rintro ⟨v, l, w⟩; rw [mem_edgesG hs, mem_edgesO hs]; exact hs.label v l w
+  · rintro ⟨v, l, w⟩; rw [mem_edgesG hs, mem_edgesI hs, ← hs.io]; exact hs.label v l w
+  · intro v l w h
+    rw [mem_edgesG hs] at h
+    obtain ⟨ls, hls, -⟩ := (hs.label v l w).1 h
+    refine ⟨?_, hs.closed v w ls hls⟩
+    obtain ⟨row, hr, -⟩ := (og_some_iff s v w).1 ⟨ls, hls⟩
+    exact (Dict.mem_keys_iff _ _).2 ⟨row, hr⟩
+
+/-- the edge set read off any view is the edge set of the abstraction -/
+theorem mem_edges_iff_abs {s : FSA V L} (hs : s.Coherent) (v : V) (l : L) (w : V) :
+    (v, l, w) ∈ s.edgesG ↔ s.abs.edges v l w := mem_edgesG hs v l w
+
+/-! ## every construction route gives a well-formed automaton with the predicted edge set -/
+
+/-- `FSA(graph_dict)` — any dictionary of dictionaries; targets that are not keys become vertices -/
+theorem wf_fromGraphDict (gd : Dict V (Dict L V)) (st : List V) (hgd : Nodup2 gd) :
+    (fromGraphDict gd st).WF ∧ (fromGraphDict gd st).starts = st ∧
+    (fromGraphDict gd st).abs =
+      ⟨fun v => v ∈ gd.keys ∨ v ∈ targets gd, fun v l w => (gd.get? v).bind (·.get? l) = some w⟩ :=
+  ⟨FSA.wf_fromGraphDict gd st hgd, rfl, abs_fromGraphDict gd st⟩
+
+/-- `FSA(out_dict, graph_dict=False)` — for a deterministic dictionary whose targets are keys and
+whose label lists are duplicate-free (and non-empty, for `NoEmpty`) -/
+theorem wf_fromOutDict (od : Dict V (Dict V (List L))) (st : List V) (h : OutDictOK od)
+    (hne : ∀ v row w ls, od.get? v = some row → row.get? w = some ls → ls ≠ []) :
+    (fromOutDict od st).WF ∧ (fromOutDict od st).starts = st ∧
+    (fromOutDict od st).abs =
+      ⟨fun v => v ∈ od.keys, fun v l w => ∃ ls, (od.get? v).bind (·.get? w) = some ls ∧ l ∈ ls⟩ := by
+  refine ⟨⟨coherent_fromOutDict od st h, ?_⟩, rfl, abs_fromOutDict od st h⟩
+  intro v w ls hls
+  rw [og_def] at hls
+  cases hv : od.get? v with
+  | none => simp [fromOutDict, hv] at hls
+  | some row => exact hne v row w ls hv (by simpa [fromOutDict, hv] using hls)
+
+/-- `FSA()` -/
+theorem wf_empty (st : List V) : (FSA.empty st : FSA V L).WF ∧
+    (∀ v, ¬ (FSA.empty st : FSA V L).abs.verts v) :=
+  ⟨FSA.wf_fromGraphDict [] st ⟨by simp, by simp⟩, by intro v h; cases h⟩
+
+/-- `free_automaton(gens)`, for every list of generator names -/
+theorem wf_free (inv : L → L) (eps : L) (gens : List L) :
+    (free inv eps gens).WF ∧ (free inv eps gens).starts = [eps] ∧
+    ∀ g h q, (free inv eps gens).abs.edges g h q ↔
+      q = h ∧ g ∈ eps :: (gens ++ gens.map inv) ∧ h ∈ gens ++ gens.map inv ∧ inv h ≠ g :=
+  ⟨FSA.wf_free inv eps gens, rfl, step_free inv eps gens⟩
+
+/-- **Loading a kbmag table reproduces the table and the start state.**  `_from_gap_record` on the
+parsed fields `transitions`, `alphabet.names` (distinct), `initial`: the automaton is well-formed,
+its start list is `initial`, and `i+1 —names[j]→ t` is an edge iff `transitions[i][j] = t ≠ 0`. -/
+theorem buildDict_spec (transitions : List (List Nat)) (labels : List L) (hl : labels.Nodup)
+    (initial : List Nat) :
+    (fromKbmag transitions labels initial).WF ∧ (fromKbmag transitions labels initial).starts = initial ∧
+    ∀ v l t, (fromKbmag transitions labels initial).abs.edges v l t ↔
+      ∃ (i j : Nat) (row : List Nat), v = i + 1 ∧ transitions[i]? = some row ∧ labels[j]? = some l ∧
+        row[j]? = some t ∧ t ≠ 0 :=
+  ⟨wf_fromKbmag transitions labels initial, rfl, step_fromKbmag transitions labels hl initial⟩
+
+/-- `copy.deepcopy` -/
+theorem wf_copy {s : FSA V L} (hs : s.WF) : s.copy.WF ∧ s.copy.abs = s.abs := ⟨hs, rfl⟩
+
+/-! ## every operation preserves well-formedness and refines the plain set model -/
+
+/-- One operation, applied under its documented precondition to a well-formed automaton, does not
+raise, returns a well-formed automaton with the same start list, and changes the vertex and edge
+sets exactly as the plain set model predicts. -/
+theorem applyOp_refines {s : FSA V L} (hs : s.WF) (op : Op V L) (hp : s.abs.Pre op) :
+    ∃ s', s.applyOp op = .ok s' ∧ s'.WF ∧ s'.starts = s.starts ∧ s'.abs = s.abs.applyOp op := by
+  cases op with
+  | addVertices vs =>
+    exact ⟨_, rfl, wf_addVertices hs vs, starts_addVertices s vs, abs_addVertices hs vs⟩
+  | addEdges es ir => exact addEdges_spec hs ir es hp
+  | addEdgesL es ir => exact addEdgesL_spec hs ir es hp
+  | deleteVertex v =>
+    obtain ⟨s', e, w, st, a, -⟩ := deleteVertex_wf hs hp
+    exact ⟨s', e, w, st, a⟩
+  | deleteVertices vs => exact deleteVertices_spec hs vs hp
+  | recurrent => exact recurrent_spec hs
+  | rename m =>
+    obtain ⟨s', e, w, st, a, -⟩ := rename_spec hs m hp.1 hp.2
+    exact ⟨s', e, w, st, a⟩
+  | copy => exact ⟨s, rfl, hs, rfl, rfl⟩
+  | hasEdge t h =>
+    obtain ⟨l, hl⟩ := hp
+    exact ⟨s, by simp [FSA.applyOp, hasEdge_of_edge hs hl, Except.map], hs, rfl, rfl⟩
+
+/-- **Coherence over any history.**  Starting from a well-formed automaton, any sequence of
+operations each meeting its precondition in the state it is applied to runs without raising, ends
+in a well-formed automaton, and the final vertex and edge sets are those the plain set model
+predicts for that history. -/
+theorem run_refines {s : FSA V L} (hs : s.WF) (ops : List (Op V L)) (hp : s.abs.HistOK ops) :
+    ∃ s', s.run ops = .ok s' ∧ s'.WF ∧ s'.starts = s.starts ∧ s'.abs = s.abs.run ops := by
+  induction ops generalizing s with
+  | nil => exact ⟨s, rfl, hs, rfl, rfl⟩
+  | cons op ops ih =>
+    obtain ⟨h1, h2⟩ := hp
+    obtain ⟨s1, e1, w1, st1, a1⟩ := applyOp_refines hs op h1
+    rw [← a1] at h2
+    obtain ⟨s', e2, w2, st2, a2⟩ := ih w1 h2
+    refine ⟨s', ?_, w2, by rw [st2, st1], ?_⟩
+    · simp only [FSA.run, e1, bind, Except.bind]; exact e2
+    · rw [a2, a1]; rfl
+
+/-- the views of every automaton reachable by a history are coherent (the statement of the
+property, as a corollary) -/
+theorem reachable_coherent {s : FSA V L} (hs : s.WF) (ops : List (Op V L)) (hp : s.abs.HistOK ops) :
+    ∃ s', s.run ops = .ok s' ∧
+      (∀ e, e ∈ s'.edgesG ↔ e ∈ s'.edgesO) ∧ (∀ e, e ∈ s'.edgesG ↔ e ∈ s'.edgesI) ∧
+      s'.edgesG.Nodup ∧ s'.edgesO.Nodup ∧ s'.edgesI.Nodup ∧
+      (∀ v l w, (v, l, w) ∈ s'.edgesG ↔ (s.abs.run ops).edges v l w) ∧
+      (∀ v, v ∈ s'.vertices ↔ (s.abs.run ops).verts v) := by
+  obtain ⟨s', e, w, -, a⟩ := run_refines hs ops hp
+  obtain ⟨h1, h2, h3, h4, h5, -⟩ := coherent_views w.1
+  refine ⟨s', e, h1, h2, h3, h4, h5, ?_, ?_⟩
+  · intro v l x; rw [mem_edges_iff_abs w.1, a]
+  · intro v; rw [← a]; rfl
+
+/-! ## the read accessors are not read-only -/
+
+/-- `has_edge` / `edge_labels` / `edge_label` asked about an existing edge change nothing … -/
+theorem query_edge_noop {s : FSA V L} (hs : s.WF) {t h : V} {l : L} (hst : s.step t l = some h) :
+    s.hasEdge t h = .ok (s, true) ∧ ∃ ls, s.edgeLabels t h = .ok (s, ls) ∧ l ∈ ls := by
+  obtain ⟨ls, hls, hl⟩ := (hs.1.label t l h).1 hst
+  exact ⟨hasEdge_of_edge hs hst, ls, edgeLabels_of_entry hls, hl⟩
+
+/-- … but asked about two vertices that are not joined by an edge they insert an empty entry into
+the outgoing view (`defaultdict`): the label and incoming views and every entry that lists a label
+are untouched — so the three views still describe the same edges — but `NoEmpty` is lost, and
+`recurrent`, which counts entries, may then keep a vertex without outgoing edges (example below).
+Queries are outside the operation list of C09; this is recorded as an observation (D13). -/
+theorem query_nonEdge_breaks_noEmpty {s : FSA V L} (hs : s.WF) {t h : V} (ht : t ∈ s.vertices)
+    (hno : ∀ l, s.step t l ≠ some h) :
+    ∃ s', s.edgeLabels t h = .ok (s', []) ∧ s'.graph = s.graph ∧ s'.inn = s.inn ∧
+      (∀ a b, s'.og a b = if a = t ∧ b = h then some [] else s.og a b) ∧ ¬ s'.NoEmpty :=
+  edgeLabels_of_nonEdge hs ht hno
+
+section QueryExample
+/-- `FSA({0: {'a': 0, 'b': 1}}, [0])`: vertex 1 is a dead end -/
+def exQ : FSA Nat String := fromGraphDict [(0, [("a", 0), ("b", 1)])] [0]
+
+/-- `recurrent()` prunes vertex 1; after the query `has_edge(1, 0)` it no longer does -/
+example : (exQ.recurrent.toOption.map fun s => s.vertices) = some [0] ∧
+    (((exQ.hasEdge 1 0).toOption.bind fun r => r.1.recurrent.toOption).map fun s => s.vertices) = some [0, 1] := by
+  constructor <;> rfl
+end QueryExample
+
+/-! ## the plain set model in closed form -/
+
+theorem setModel_addEdges (m : SetFSA V L) (es : List (V × V × L)) :
+    (∀ v l w, (m.addEdges es).edges v l w ↔ m.edges v l w ∨ (v, w, l) ∈ es) ∧
+    (∀ v, (m.addEdges es).verts v ↔ m.verts v ∨ ∃ e ∈ es, v = e.1 ∨ v = e.2.1) := by
+  induction es generalizing m with
+  | nil => simp [SetFSA.addEdges]
+  | cons e es ih =>
+    obtain ⟨t, h, l⟩ := e
+    have := ih (m.addEdge t h l)
+    simp only [SetFSA.addEdges, List.foldl_cons] at this ⊢
+    constructor
+    · intro v l' w; rw [this.1]; simp only [SetFSA.addEdge, List.mem_cons, Prod.mk.injEq]; grind
+    · intro v; rw [this.2]; simp only [SetFSA.addEdge, List.mem_cons, exists_eq_or_imp]; grind
+
+theorem setModel_deleteVertices (m : SetFSA V L) (xs : List V) :
+    (∀ v l w, (m.deleteVertices xs).edges v l w ↔ m.edges v l w ∧ v ∉ xs ∧ w ∉ xs) ∧
+    (∀ v, (m.deleteVertices xs).verts v ↔ m.verts v ∧ v ∉ xs) := by
+  induction xs generalizing m with
+  | nil => simp [SetFSA.deleteVertices]
+  | cons x xs ih =>
+    have := ih (m.deleteVertex x)
+    simp only [SetFSA.deleteVertices, List.foldl_cons] at this ⊢
+    constructor
+    · intro v l w; rw [this.1]; simp only [SetFSA.deleteVertex, List.mem_cons]; grind
+    · intro v; rw [this.2]; simp only [SetFSA.deleteVertex, List.mem_cons]; grind
+
+/-! ## non-vacuity: a concrete history -/
+
+section Example
+/-- `FSA({0: {'a': 1}, 1: {'b': 1}}, [0])` -/
+def ex0 : FSA Nat String := fromGraphDict [(0, [("a", 1)]), (1, [("b", 1)])] [0]
+
+/-- add a parallel edge, a new vertex with a list of labels, delete, prune, relabel -/
+def exOps : List (Op Nat String) :=
+  [.addEdges [(0, 1, "b")] true, .addEdgesL [(1, 2, ["a", "c"]), (2, 0, [])] true,
+   .deleteVertex 2, .recurrent, .rename [("a", "b"), ("b", "a"), ("c", "c")], .copy]
+
+example : ex0.WF := (wf_fromGraphDict _ _ ⟨by decide, by
+  intro k row h
+  have : row = [("a", 1)] ∨ row = [("b", 1)] := by
+    have hm := Dict.mem_of_get? h
+    simp only [List.mem_cons, Prod.mk.injEq, List.not_mem_nil, or_false] at hm
+    rcases hm with ⟨-, rfl⟩ | ⟨-, rfl⟩ <;> simp
+  rcases this with rfl | rfl <;> decide⟩).1
+
+example : (ex0.run exOps).toOption.map (fun s => (s.edgesG, s.edgesO, s.edgesI, s.vertices)) =
+    some ([(1, "a", 1)], [(1, "a", 1)], [(1, "a", 1)], [1]) := by rfl
+end Example
+
+end GT.C09
